@@ -37,23 +37,26 @@ type clientRec struct {
 }
 
 type st struct {
-	lasRet          bool
-	lasErr          error
-	closeErr        error
-	closeRet        bool
-	closeTries      int
-	est             map[string]int
-	fin             map[string]int
-	order           []string // callback/handler events in order
-	clients         []*clientRec
-	pl              *lib.PipeListener
-	snap            bool
-	stage           int
-	lastKind        string
-	stalled         *rt.Conn
-	stalledClosedAt time.Duration
-	stalledEnded    bool
-	closeAt         time.Duration
+	closeErrExpected     bool
+	pipeListenerClosed   bool
+	inprocStillListening bool
+	lasRet               bool
+	lasErr               error
+	closeErr             error
+	closeRet             bool
+	closeTries           int
+	est                  map[string]int
+	fin                  map[string]int
+	order                []string // callback/handler events in order
+	clients              []*clientRec
+	pl                   *lib.PipeListener
+	snap                 bool
+	stage                int
+	lastKind             string
+	stalled              *rt.Conn
+	stalledClosedAt      time.Duration
+	stalledEnded         bool
+	closeAt              time.Duration
 }
 
 func drainAll(cc *lime.ClientChannel) {
@@ -161,6 +164,11 @@ func body(nclients int, withInproc, withWS bool) func(x *harness.X) {
 		}
 		pl := lib.NewPipeListener(nil, 64<<10, 2)
 		s.pl = pl
+		if withInproc && rt.Choose(2) == 1 {
+			// the first listener closes properly but reports an error while doing so
+			pl.CloseErr = errors.New("pipe listener: error while closing")
+			s.closeErrExpected = true
+		}
 		listeners := []lime.BoundListener{lime.NewBoundListener(pl, lib.PipeAddr("p"))}
 		inaddr := lime.InProcessAddr("c18")
 		if withInproc {
@@ -285,6 +293,14 @@ func body(nclients int, withInproc, withWS bool) func(x *harness.X) {
 		}
 		rt.Quiesce()
 		rt.EndExplore()
+		// "stops all listeners"
+		s.pipeListenerClosed = pl.IsClosed()
+		if withInproc {
+			if t, ok := lib.TryDialInProc(inaddr, 1); ok {
+				s.inprocStillListening = true
+				_ = t.Close()
+			}
+		}
 		s.snap = true
 		rt.Stop()
 	}
@@ -305,6 +321,13 @@ func final(x *harness.X, res *rt.Result) {
 	}
 	if !s.closeRet {
 		x.Failf("close-blocked", "Server.Close never returned %s", hist)
+	}
+	if s.closeRet && (!s.pipeListenerClosed || s.inprocStillListening) {
+		x.Failf("listener-not-stopped", "after Server.Close (error: %v) the pipe listener is closed=%v and the in-process listener still accepts=%v %s", s.closeErr, s.pipeListenerClosed, s.inprocStillListening, hist)
+	}
+	// a handshake that stalls must not keep other connections from being served
+	if s.lastKind == "stalled" && s.stage == 3 && len(s.clients) == 2 && s.clients[0].dialled && !s.clients[0].established && s.clients[0].estErr != nil {
+		x.Failf("client-starved-by-stalled-handshake", "%s dialled and was never established although Close only came 2 s after the other client's handshake had stalled: %v %s", s.clients[0].name, s.clients[0].estErr, hist)
 	}
 	if !s.lasRet {
 		x.Failf("serve-not-returned", "ListenAndServe did not return after Close %s", hist)
@@ -423,7 +446,7 @@ func main() {
 			mk("1client", 1, false, 1, 2),
 			mk("2clients", 2, false, 1, 2),
 			mk("2clients/ws+pipe", 2, false, 1, 1),
-			mk("2clients/inproc+pipe", 2, true, -1, 1),
+			mk("2clients/inproc+pipe", 2, true, 0, 1),
 		},
 	})
 }
